@@ -19,3 +19,7 @@ pub fn vx_fmt() -> String { unimplemented!() }
 pub fn vx_unreachable() -> !
     requires false
 { unreachable!() }
+
+// std combinators a body may use on Option / Result (their definitions, as contracts)
+pub assume_specification<T, E>[ Result::<T, E>::unwrap_or ](r: Result<T, E>, d: T) -> (o: T)
+    ensures o == (match r { Ok(v) => v, Err(_) => d });
